@@ -776,3 +776,23 @@ pub fn neighbour_pairs<T: Clone + fmt::Debug>(
         }
     }
 }
+
+// ------------------------------------------------------------------------------------------
+// C11: argument types that do / do not implement the traits, methods that need nothing of their arguments
+
+#[derive(Clone, Copy, Debug, PartialEq, Eq, PartialOrd, Ord, Hash, Default)]
+pub struct Yes;
+impl From<Yes> for u64 { fn from(_: Yes) -> u64 { 1 } }
+impl From<Yes> for u32 { fn from(_: Yes) -> u32 { 1 } }
+pub trait Mk {}
+impl Mk for Yes {}
+pub struct No;
+
+pub fn fmt_any<T>(_: &T, f: &mut fmt::Formatter<'_>) -> fmt::Result { f.write_str("_") }
+pub fn clone_any<T>(_: &T) -> T { unreachable!() }
+pub fn eq_any<T>(_: &T, _: &T) -> bool { true }
+pub fn pcmp_any<T>(_: &T, _: &T) -> Option<Ordering> { None }
+pub fn cmp_any<T>(_: &T, _: &T) -> Ordering { Ordering::Equal }
+pub fn hash_any<T, H: Hasher>(_: &T, _: &mut H) {}
+pub fn make_any<T>() -> T { unreachable!() }
+pub fn into_any<T, U>(_: T) -> U { unreachable!() }
